@@ -175,7 +175,7 @@ fn main() {
             }
         }
         let s = C09 { cfgs };
-        let mut o = Opts::new(tier, if thorough { 9 } else { 6 });
+        let mut o = Opts::new(tier, if thorough { 12 } else { 6 });
         o.min_depth = 4;
         o.rule = "minimum delay in {0,1,5,1000,u64::MAX} x deployment time in {0,100,1.7e9}; all sequences over {advance 1 / delay-1 / delay / delay+1 seconds, non-bypass rotation with an honest proof, non-bypass rotation to an already-installed set, non-bypass rotation with a proof for another candidate, bypass with operator / nobody / stranger authorising} up to depth 6 (quick) / 9 (thorough); model: last successful rotation time (deployment counts)".into();
         (s, o)
